@@ -47,7 +47,7 @@ type RS struct {
 }
 
 // NumHidden is the number of hidden perturbations per module (0 = none).
-var NumHidden = []int{5, 2, 4, 4, 3, 4}
+var NumHidden = []int{6, 2, 4, 4, 3, 4}
 
 // ID encodes the rule's content class (module, resource, variant) and its table index. Rule
 // managers reuse the controller (and the rule object) of an earlier load for a rule that is
@@ -127,6 +127,10 @@ func BuildFlow(r RS) *flow.Rule {
 			x.WarmUpColdFactor = 5
 		case 4:
 			x.LowMemUsageThreshold = 5
+		case 5:
+			// a throttling rule (the queueing time, perturbed by Tw, matters only for this behaviour); threshold 0
+			// blocks under throttling as it does under reject
+			x.ControlBehavior = flow.Throttling
 		}
 	}
 	return x
